@@ -241,7 +241,7 @@ func c03Gen(c *core.Ctx) {
 	}
 	if !core.Quick(c) {
 		// seeded sample of length 5-7
-		for i := 0; i < 3000000; i++ {
+		for i := 0; i < 10000000; i++ {
 			if !c.Mine() {
 				continue
 			}
@@ -254,7 +254,7 @@ func c03Gen(c *core.Ctx) {
 		}
 	}
 	// 1b. prefixes of programs that end inside a here-document body
-	nhd := c.Pick(1500, 30000)
+	nhd := c.Pick(1500, 100000)
 	for i := 0; i < nhd; i++ {
 		r := c.Rand("hd", int64(i))
 		p := gen.New(r, gen.Options{Budget: 1 + r.IntN(6), Heredocs: true, HDBias: true, NoNested: true, Flat: i%2 == 0, LeadHD: i%3 == 0}).Program()
@@ -288,7 +288,7 @@ func c03Gen(c *core.Ctx) {
 		}
 	}
 	// 2. mutants of generated programs (without here-documents)
-	nprog := c.Pick(1500, 40000)
+	nprog := c.Pick(1500, 150000)
 	for i := 0; i < nprog; i++ {
 		r := c.Rand("prog", int64(i))
 		o := gen.Options{Budget: 2 + r.IntN(9), Flat: i%3 == 0}
